@@ -31,6 +31,13 @@ pub struct Cfg {
     pub ext: bool,
     #[serde(default)]
     pub buf: bool,
+    /// `with_buffer_size(n)` (documented as a size limit; inert in the pinned tree)
+    #[serde(default)]
+    pub bufsize: Option<usize>,
+    /// build through the one-at-a-time builder methods (with_min_opcodes / with_max_opcodes /
+    /// with_mutator) instead of with_opcode_range / with_mutators
+    #[serde(default)]
+    pub alt_builder: bool,
 }
 
 fn default_rate() -> f64 {
@@ -62,17 +69,30 @@ pub const MUTATOR_NAMES: [&str; 7] = [
 
 pub fn build_generator(cfg: &Cfg, seed: Option<u64>) -> Generator {
     let version = Version::try_from(cfg.p).expect("protocol 0..5");
-    let mut g = Generator::new(version).with_opcode_range(cfg.min, cfg.max);
+    let mut g = if cfg.alt_builder {
+        Generator::new(version).with_max_opcodes(cfg.max).with_min_opcodes(cfg.min)
+    } else {
+        Generator::new(version).with_opcode_range(cfg.min, cfg.max)
+    };
     if let Some(s) = seed {
         g = g.with_seed(s);
     }
+    if let Some(n) = cfg.bufsize {
+        g = g.with_buffer_size(n);
+    }
     if !cfg.muts.is_empty() {
-        let ms = cfg
-            .muts
-            .iter()
-            .map(|n| mutator_kind(n).expect("mutator name").create(cfg.mut_unsafe))
-            .collect();
-        g = g.with_mutators(ms);
+        if cfg.alt_builder {
+            for n in &cfg.muts {
+                g = g.with_mutator(mutator_kind(n).expect("mutator name").create(cfg.mut_unsafe));
+            }
+        } else {
+            let ms = cfg
+                .muts
+                .iter()
+                .map(|n| mutator_kind(n).expect("mutator name").create(cfg.mut_unsafe))
+                .collect();
+            g = g.with_mutators(ms);
+        }
     }
     if !cfg.rate_special.is_empty() {
         g.mutation_rate = match cfg.rate_special.as_str() {
